@@ -20,12 +20,14 @@ META = dict(
               "definitions are run inside Coq (vm_compute) on the dictionaries the real code wrote / was given and compared "
               "(key set, order, routing, error class, reshaped values); structural translation of the end-of-fit statements",
     level_text="Unbounded theorems: after the end-of-fit script every population variable is the mode of its prior under the final "
-               "parameters and every read is the from-scratch value (interface hypothesis kept visible); load(save m) succeeds and "
+               "parameters and every read is the from-scratch value (store interface proved for the State model of C01: "
+               "C12_self_consistent_state / _reachable, docs/Compose-api.md); load(save m) succeeds and "
                "preserves kind, features, dimension, sources, observation models, parameters for every well-formed model whose "
                "instance name is its kind; save/load/save is the identity on float32 declared-shape models; refutations for custom "
                "instance names, default-constructed univariate models, scalar-noise shape and float64 parameters.",
     level_note="Trusted: Coq kernel; json / repr float round trip and torch.tensor float32 cast (tested on sampled bit patterns, "
-               "not proved); torch tolist / view; the store interface hypothesis of C12_self_consistent (to be discharged by C01); "
+               "not proved); torch tolist / view; the graph-shape conditions of C12_self_consistent_state on population variables and "
+               "their priors (checked on the shipped DAGs at run time); "
                "DAG node names other than parameters, hyper-parameters and mixing_matrix in a hand-written `parameters` section are "
                "outside the model.",
     design_ref="DESIGN.md section 4 C12",
@@ -35,6 +37,8 @@ OBLIGATIONS = [
     "C12_self_consistent", "C12_tie_end_of_fit", "C12_roundtrip_partial", "C12_roundtrip_exact", "C12_idempotent_partial",
     "C12_instance_name_refuted", "C12_instance_name_case_refuted", "C12_univariate_default_refuted",
     "C12_scalar_noise_shape_refuted", "C12_float64_refuted",
+    # composition with C01 (coq/theories/Compose/): the store hypotheses discharged on the real State model
+    "C12_store_interface_discharged", "C12_self_consistent_state", "C12_self_consistent_reachable", "C12_state_example",
 ]
 
 SCRATCH = Path(f"/tmp/scratch/c12-check-{os.getpid()}/run")
